@@ -77,7 +77,7 @@ pub open spec fn rel_consistent(txx: Seq<Transaction>, rel: Map<CoinID, CoinData
         ==> rel[cid(txx[t], i)].coin_data.covhash == txx[t].outputs@[i].covhash
 }
 pub proof fn lemma_origin_insert(c: IMap<CoinID, CoinDataHeight>, tx: Transaction, i: int, d: CoinDataHeight)
-    requires origin_ok(c), 0 <= i < tx.outputs@.len(), tx.outputs@.len() <= 255, d.coin_data.covhash == tx.outputs@[i].covhash
+    requires origin_ok(c), 0 <= i < tx.outputs@.len(), i <= 255, d.coin_data.covhash == tx.outputs@[i].covhash
     ensures origin_ok(c.insert(cid(tx, i), d)),
             c.contains_key(cid(tx, i)) ==> c[cid(tx, i)].coin_data.covhash == d.coin_data.covhash
 {
@@ -231,6 +231,8 @@ pub proof fn lemma_phases_to_batch(c0: IMap<CoinID, CoinDataHeight>, c1: IMap<Co
     ensures batch_coins(c0, c, txx, rel)
 {
 }
+/// state invariant: the transaction set is keyed by the transactions' own hashes
+pub open spec fn txs_keyed(m: Map<TxHash, Transaction>) -> bool { forall|h: TxHash| m.contains_key(h) ==> spec_txhash(#[trigger] m[h]) == h }
 /// h is the hash of one of txx[0..j)
 pub open spec fn in_batch(txx: Seq<Transaction>, j: int, h: TxHash) -> bool { exists|q: int| 0 <= q < j && h == spec_txhash(#[trigger] txx[q]) }
 pub proof fn lemma_in_batch_next(txx: Seq<Transaction>, j: int, h: TxHash)
